@@ -230,7 +230,11 @@ func Compare(a, b Value) int {
 	}
 	if a.T != b.T {
 		if a.T.Numeric() && b.T.Numeric() {
-			return cmpFloat(a.num(), b.num())
+			// exact: an INTEGER beyond 2^53 is not equal to the nearest FLOAT
+			if a.T == TInt {
+				return -cmpFloatInt(b.F, a.I)
+			}
+			return cmpFloatInt(a.F, b.I)
 		}
 		panic(fmt.Sprintf("sqlgen.Compare: %v vs %v", a.T, b.T))
 	}
@@ -279,6 +283,24 @@ func (v Value) num() float64 {
 		return float64(v.I)
 	}
 	return v.F
+}
+
+// cmpFloatInt compares a float with an integer without rounding either.
+func cmpFloatInt(f float64, i int64) int {
+	switch {
+	case f >= 9223372036854775808.0: // 2^63
+		return 1
+	case f < -9223372036854775808.0:
+		return -1
+	}
+	t := math.Trunc(f)
+	if ti := int64(t); ti != i {
+		if ti < i {
+			return -1
+		}
+		return 1
+	}
+	return cmpFloat(f, t)
 }
 
 func cmpFloat(a, b float64) int {
